@@ -76,6 +76,13 @@ impl TopicActor {
         topic_internal_id: u32,
     ) -> mpsc::Sender<TopicRequest> {
         let (sender, mut receiver) = mpsc::channel(16);
+        #[cfg(deltio_verif)]
+        let (sender, mut receiver) = {
+            drop::<(mpsc::Sender<TopicRequest>, mpsc::Receiver<TopicRequest>)>((sender, receiver));
+            mpsc::channel(crate::verif::mailbox_capacity(16))
+        };
+        #[cfg(deltio_verif)]
+        crate::verif_ev!("topic {} new {}", topic_internal_id, info.name);
         let mut actor = Self {
             topic_internal_id,
             delegate,
@@ -185,6 +192,14 @@ impl TopicActor {
 
         // Add them to the topic.
         self.messages.extend(messages.iter().map(Arc::clone));
+        #[cfg(deltio_verif)]
+        crate::verif_ev!(
+            "topic {} publish {} -> {} | {}",
+            self.topic_internal_id,
+            messages.len(),
+            crate::verif::ids_of(&messages),
+            crate::verif::sub_ids_of(self.subscriptions.values())
+        );
 
         // Post them to all subscriptions.
         let mut set = tokio::task::JoinSet::new();
@@ -221,6 +236,12 @@ impl TopicActor {
         subscription: Arc<Subscription>,
     ) -> Result<(), AttachSubscriptionError> {
         // Insert the subscription.
+        #[cfg(deltio_verif)]
+        crate::verif_ev!(
+            "topic {} attach {}",
+            self.topic_internal_id,
+            subscription.internal_id
+        );
         if let Entry::Vacant(entry) = self.subscriptions.entry(subscription.name.clone()) {
             entry.insert(subscription);
         }
@@ -233,6 +254,15 @@ impl TopicActor {
         name: SubscriptionName,
     ) -> Result<(), RemoveSubscriptionError> {
         // Remove the subscription. This is called from the `Subscription` itself.
+        #[cfg(deltio_verif)]
+        crate::verif_ev!(
+            "topic {} remove {}",
+            self.topic_internal_id,
+            self.subscriptions
+                .get(&name)
+                .map(|s| s.internal_id.to_string())
+                .unwrap_or("-".to_string())
+        );
         self.subscriptions.remove(&name);
         Ok(())
     }
@@ -244,6 +274,8 @@ impl TopicActor {
 
         // Mark the topic as deleted.
         self.deleted = true;
+        #[cfg(deltio_verif)]
+        crate::verif_ev!("topic {} delete", self.topic_internal_id);
 
         // Remove all subscriptions.
         self.subscriptions.clear();
